@@ -120,6 +120,9 @@ def check_events(sched, rec, judge_unserialisable_exception_object=True):
             ok_meth = {a - 1} if (hit and raiser == 'appA') else ({a, a - 1} if (hit and raiser == 'svc') else {a})
             if svc.count(ev) not in ok_svc:
                 pr.append('inherited service listener saw %s %d times, application listener %d' % (ev, svc.count(ev), a))
+            svcb = events_of(rec, 'svcB').count(ev)
+            if svcb not in ({a - 1} if (hit and raiser == 'appA') else ({a, a - 1} if (hit and raiser in ('meth', 'svc')) else {a})):
+                pr.append('listener inherited from the second base saw %s %d times, application listener %d' % (ev, svcb, a))
             if has_meth_mgr and meth.count(ev) not in ok_meth:
                 pr.append('method listener saw %s %d times, application listener %d' % (ev, meth.count(ev), a))
     if any(t.startswith('svc2:') for t in tr):
